@@ -13,6 +13,8 @@ Guards come from my own SVD / shift-invariance eigenvalues of H, never from the 
 The lattice contains a region of systems with COINCIDENT NATURAL FREQUENCIES: two distinct, simple, separated eigenvalues (two modes of
 different damping, or a mode and a real pole) whose identified natural frequencies agree exactly or to a few 1e-6 relative - the
 quantifier asks for simple eigenvalues, not for distinct frequencies; every frequency must still get ITS OWN variance.
+The function route is also walked over the KIND / DTYPE OF THE FACTOR ARRAY handed in: factors of whole numbers (one-hot columns = "perturb
+one Hankel entry", columns of small integers) given as float64, float32, int64 and int32 arrays holding exactly the same values.
 """
 import collections
 import hashlib
@@ -32,9 +34,12 @@ TECHNIQUE = ("exhaustive walk of a configuration lattice around a payload alphab
              "their natural frequency")
 LEVEL_TEXT = ("every configuration of the stated lattice is executed on the real ssi.build_hank / SSI_fast / SSI_poles "
               "(and SSIcov through SingleSetup); every variance cell of every guarded model order is judged; the lattice includes "
-              "systems designed so that two distinct eigenvalues share their natural frequency (exactly / to 1e-6 relative)")
+              "systems designed so that two distinct eigenvalues share their natural frequency (exactly / to 1e-6 relative), and a region "
+              "in which the same whole-number factor (one-hot columns, small integers) is handed to the function route as a float64, "
+              "float32, int64 and int32 array")
 RULE = ("a case is one lattice point (family, channels, reference subset, block rows, order n = ordmax, factor columns, "
-        "system variant, and in the coincident-frequency region the coincidence variant and the relative frequency offset); "
+        "system variant, in the coincident-frequency region the coincidence variant and the relative frequency offset, in the "
+        "factor-dtype region the kind of whole-number factor and the dtype of the array); "
         "non-trivial = it passed the truth-based guards, at least one model order in 2..n had its finite differences "
         "agree at both step sizes and a strictly positive expected variance (so a number was actually compared); "
         "distinct by lattice coordinates")
@@ -52,6 +57,10 @@ ASSUMPTIONS = [
     "build_hank's) until the two identified natural frequencies have the stated relative offset to 1e-10; the library's own identification "
     "agrees with mine far below numpy.isclose-like tolerances (monitored: eq_identified_frequency_rel_difference); nothing else differs "
     "from the other cases (same guards from truth, same finite-difference reference matched by eigenvalue, same tolerances)",
+    "factor-dtype region: the factor is a set of perturbation directions of vec(H) and the statement does not depend on how the array "
+    "holding them is typed; the designed factors consist of whole numbers (0/1 one-hot columns, integers -3..3) so that the casts to "
+    "float32 / int64 / int32 are exact (checked on the values before the library is called); the reference is the same finite-difference "
+    "sum computed from the float64 values, same tolerances (no band of its own for float32: the unchanged tree promotes to float64)",
     "record lengths are chosen with N mod nb = 1 so that the block length N//nb is unambiguous; the data factor is additionally judged on a record with N mod nb = nb-1, where either contiguous partition (nb blocks of N//nb, or block lengths differing by one) is accepted provided every block estimate is normalised by its own length",
 ]
 
@@ -289,6 +298,30 @@ def my_guards(H, l, n):
     return float(gaps.min()), seps
 
 
+# ---- whole-number factors handed in under several dtypes -------------------------------------------------------
+# A covariance factor is a set of perturbation directions of vec(H). The direction "one entry of H" is a one-hot column, naturally written
+# as an integer (or single-precision) array; columns of small whole numbers likewise. The values are whole numbers so that every cast below
+# is exact: the SAME factor is handed in as float64, float32, int64 and int32 and the variance must be the same first-order propagation.
+
+TK_KINDS = ("one-hot", "small-integers")
+TK_DTYPES = ("float64", "float32", "int64", "int32")
+
+
+def whole_number_factor(seed, kind, nH, ncol, tag):
+    """(nH x ncol) float64 array of whole numbers: one-hot columns at distinct payload positions, or integers -3..3."""
+    if kind == "one-hot":
+        base = int(payload.uniform(seed, f"c17/tk/pos/{tag}", 1)[0] * nH) % nH
+        T = np.zeros((nH, ncol))
+        for j in range(ncol):
+            T[(base + j * (nH // ncol)) % nH, j] = 1.0       # nH >= 6 > ncol: distinct rows
+        return T
+    u = payload.uniform(seed, f"c17/tk/int/{tag}", nH * 5).reshape(nH, 5)[:, :ncol]
+    return np.floor(7 * u) - 3.0
+
+
+_FD = {}
+
+
 # ---- library routes -------------------------------------------------------------------------------
 
 def ident(ssi, H, br, n):
@@ -460,6 +493,9 @@ def run_case(seed, c):
         # the outcome counters of the coincident-frequency region are kept apart: the vacuity monitors of the rest of the lattice
         # must not be satisfied by it
         t.outcomes = collections.Counter({(k if k.startswith("eq:") else "eq/" + k): v for k, v in t.outcomes.items()})
+    elif c.get("tk") is not None:
+        # likewise for the factor-dtype region
+        t.outcomes = collections.Counter({(k if k.startswith("tk:") else "tk/" + k): v for k, v in t.outcomes.items()})
     return t
 
 
@@ -471,9 +507,10 @@ def _run_case(seed, c):
     fam, l, refs, br, n, ncol = c["fam"], c["l"], tuple(c["refs"]), c["br"], c["n"], c["ncol"]
     var = c.get("var", 0)
     eq = tuple(c["eq"]) if c.get("eq") is not None else None       # (coincidence variant, offset index) or None
+    tk = tuple(c["tk"]) if c.get("tk") is not None else None       # (kind of whole-number factor, dtype of the array) or None
     r = len(refs)
     case = dict(c, seed=seed)
-    cid = (fam[0], l, refs, br, n, ncol, var) + (("eq",) + eq if eq else ())
+    cid = (fam[0], l, refs, br, n, ncol, var) + (("eq",) + eq if eq else ()) + (("tk",) + tk if tk else ())
 
     # the overall level of the Hankel matrix / of the records is free (variances relative to f^2 are scale invariant): unit level,
     # and a very small one (nanometre displacements in metres) on every second lattice point
@@ -505,6 +542,13 @@ def _run_case(seed, c):
         else:
             H = (level ** 2) * hankel_exact(seed, l, refs, br, n, var)
             T = payload.normal(seed, f"c17/T/{l}/{refs}/{br}/{n}/{var}", (H.size, 20))[:, :ncol] * 1e-3 * np.linalg.norm(H) / np.sqrt(H.size)
+            if tk:
+                # the same whole numbers, handed in as an array of the stated dtype (the cast is exact by design: verified on the values)
+                T64 = whole_number_factor(seed, tk[0], H.size, ncol, f"{l}/{refs}/{br}/{n}/{var}")
+                T = T64.astype(tk[1])
+                t.outcomes["tk:cases"] += 1
+                if not (T.dtype == np.dtype(tk[1]) and np.array_equal(T.astype(np.float64), T64) and np.all(T64 == np.round(T64))):
+                    raise AssertionError("harness: the whole-number factor did not survive the cast")
     else:
         nb = 3 if ncol == 1 else ncol
         data = level * (record_eq(seed, l, n, eqv, fb) if eq else record(seed, l, n, var))[:ndat_for(br)]
@@ -566,12 +610,21 @@ def _run_case(seed, c):
 
     # (i) finite differences of the identification itself
     try:
-        coarse, fine, rich = fd_expected(ssi, H, br, n, T, Fn0, Lam0, orders, t)
+        if tk:
+            # the reference does not depend on how the array is typed: finite differences along the float64 values, computed once per
+            # designed factor and shared by the dtypes of the same lattice point (they run consecutively in one slice)
+            key = (seed, l, refs, br, n, ncol, var, tk[0])
+            if key not in _FD:
+                _FD.clear()
+                _FD[key] = fd_expected(ssi, H, br, n, T64, Fn0, Lam0, orders, t)
+            coarse, fine, rich = _FD[key]
+        else:
+            coarse, fine, rich = fd_expected(ssi, H, br, n, T, Fn0, Lam0, orders, t)
     except Exception as e:
         t.violation(f"identification:raises:{type(e).__name__}", f"SSI_fast/SSI_poles without uncertainty raised {e!r}", case)
         return t
     judged_any = False
-    scale2 = np.linalg.norm(T) ** 2 / np.linalg.norm(H) ** 2      # sum_k (|T_k| / |H|)^2
+    scale2 = np.linalg.norm(T64 if tk else T) ** 2 / np.linalg.norm(H) ** 2      # sum_k (|T_k| / |H|)^2
     cells = np.zeros((n, n + 1), bool)                            # the cells that are judged
     eq_rows = ([], [])
     if eq:
@@ -603,10 +656,11 @@ def _run_case(seed, c):
             judged += 1
             if not rel <= RTOL:
                 coincident = eq and k == n and i in eq_rows[0] + eq_rows[1]
-                t.violation("propagation:fn-variance-vs-finite-difference" + (":pole-sharing-its-natural-frequency-with-another" if coincident else ""),
+                t.violation("propagation:fn-variance-vs-finite-difference" + (":pole-sharing-its-natural-frequency-with-another" if coincident else "")
+                            + (f":whole-number-factor-handed-in-as-{tk[1]}" if tk else ""),
                             f"order {k}, pole {i} (f={Fn0[i, k]:.6g}): Fn_cov={got:.6e}, squared directional derivative(s) "
                             f"sum to {exp:.6e} (steps agree to {abs(a-b)/b:.1e}); ratio {got/exp:.4g}; "
-                            f"H {H.shape}, {T.shape[1]} factor column(s)", case)
+                            f"H {H.shape}, {T.shape[1]} factor column(s)" + (f" of {tk[0]} kind, dtype {T.dtype}" if tk else ""), case)
             else:
                 t.err("fn_variance_rel", rel)
         if judged:
@@ -636,6 +690,10 @@ def _run_case(seed, c):
         t.nontrivial.add(cid)
         t.outcomes[f"{fam}:judged"] += 1
         t.outcomes[f"columns:{ncol}"] += 1
+        if tk:
+            t.outcomes[f"tk:{tk[0]}:{tk[1]}:judged"] += 1
+            t.outcomes[f"tk:{tk[0]}:{'single-direction' if ncol == 1 else 'several-columns'}:judged"] += 1
+            t.outcomes[f"tk:level:{level:g}:{'integer' if T.dtype.kind == 'i' else 'floating'}-typed:judged"] += 1
 
     # (ii) additivity over the factor columns
     if ncol > 1:
@@ -686,10 +744,13 @@ def layouts(ls):
 
 
 def _slice(item):
-    fam, l, refs, br, n, ncols, var, eq = item
+    fam, l, refs, br, n, ncols, var, eq = item[:8]
+    tks = item[8] if len(item) > 8 else [None]            # (kind, dtype) pairs of one designed factor, run consecutively
     t = Tally()
     for ncol in ncols:
-        t.merge(run_case(_SEED, dict(fam=fam, l=l, refs=list(refs), br=br, n=n, ncol=ncol, var=var, eq=list(eq) if eq else None)))
+        for tk in tks:
+            t.merge(run_case(_SEED, dict(fam=fam, l=l, refs=list(refs), br=br, n=n, ncol=ncol, var=var, eq=list(eq) if eq else None,
+                                         tk=list(tk) if tk else None)))
     return t
 
 
@@ -749,6 +810,39 @@ def explore(ctx):
             for off, ncol in itertools.product(eq_offs, eq_ncols):
                 eq_items.append((fam, l, refs, br, n, [ncol], 0, (eqv, off)))
     items += eq_items
+
+    # kind / dtype of the factor array on the function route: the same whole-number factor as float64, float32, int64, int32
+    if ctx.thorough:
+        tk_ncols, tk_vars = [1, 3, 5], [0]
+
+        def tk_pairs(l, r, br, n):
+            return [(kind, ncol) for kind in TK_KINDS for ncol in tk_ncols]
+    else:
+        tk_ncols, tk_vars = [1, 3], [0]
+
+        def tk_pairs(l, r, br, n):
+            # one (kind, columns) combination per lattice point, rotating: the four block-row values of a (layout, n) see all four
+            a = (l + r + br + n // 2) % 4
+            return [(TK_KINDS[a % 2], tk_ncols[a // 2])]
+    ctx.bounds["factor_kind_and_dtype (function route)"] = {
+        "what": "the covariance factor handed to ssi.SSI_fast(..., calc_unc=True, T=...) is a designed array of whole numbers, the SAME values "
+                "given as arrays of several dtypes (casts exact, verified); exact Hankel family, all layouts / br / n of the main lattice; "
+                "same finite-difference reference (computed from the float64 values), same guards and tolerances; the class route always "
+                "builds its own float64 factor and has no such axis",
+        "kinds": {"one-hot": "every column perturbs ONE entry of H (0/1 entries; distinct payload positions)",
+                  "small-integers": "payload integers -3..3"},
+        "dtypes": list(TK_DTYPES), "factor_columns": tk_ncols, "order n = ordmax": ns, "br": brs, "layouts": "all 11",
+        "system_variant": tk_vars,
+        "kind x columns per lattice point": "all combinations" if ctx.thorough else
+        "one combination, number (l + r + br + n/2) mod 4 of (one-hot, 1), (small-integers, 1), (one-hot, 3), (small-integers, 3); all four dtypes on it",
+    }
+    tk_items = []
+    for (l, refs), br, n, var in itertools.product(lay, brs, ns, tk_vars):
+        if not feasible(l, len(refs), br, n):
+            continue
+        for kind, ncol in tk_pairs(l, len(refs), br, n):
+            tk_items.append(("exact", l, refs, br, n, [ncol], var, None, [(kind, dt) for dt in TK_DTYPES]))
+    items += tk_items
     items.sort(key=lambda it: -(it[5][0] * it[4] ** 2 * (it[3] + 1) ** 2 * it[1] * len(it[2])))
     ctx.pmap(_slice, items, chunksize=1)
     ctx.require("level:1", "level:1e-09", "exact:judged", "data:judged", "factor:holds", "factor:remainder-record-judged", "factor:vec-order-decidable", "additivity:holds", "class:holds", "class:looked-at-algorithm-before-reading:plot_stab",
@@ -756,10 +850,15 @@ def explore(ctx):
     ctx.require("eq:exact:coincident-poles-judged", "eq:data:coincident-poles-judged", "eq:two-modes:judged", "eq:mode-and-real-pole:judged",
                 "eq:coincident-poles-adjacent-in-the-pole-list:judged", "eq/additivity:holds", "eq/class:holds", "eq/factor:holds",
                 *[f"eq:offset:{EQ_OFFSETS[o]:g}:judged" for o in eq_offs], *[f"eq:order-{n}:judged" for n in eq_ns])
+    ctx.require(*[f"tk:{kind}:{dt}:judged" for kind in TK_KINDS for dt in TK_DTYPES],
+                *[f"tk:{kind}:{w}:judged" for kind in TK_KINDS for w in ("single-direction", "several-columns")],
+                *[f"tk:level:{lv}:{ty}-typed:judged" for lv in ("1", "1e-09") for ty in ("integer", "floating")],
+                "tk/additivity:holds", *[f"tk/order-judged:{n}" for n in ns])
 
 
 def replay(case):
     c = {k: case[k] for k in ("fam", "l", "refs", "br", "n", "ncol")}
     c["var"] = case.get("var", 0)
     c["eq"] = case.get("eq")
+    c["tk"] = case.get("tk")
     return run_case(case["seed"], c)
